@@ -115,8 +115,7 @@ Inductive acc_err :=
 Definition c_limit : Z := 256.
 
 (* ConversionSpecifier.accept_no_mvv for a literal argument *)
-Definition spec_accept (is_bytes : bool) (cs : cspec) (o : obj) : list acc_err :=
-  let t := c_type cs in
+Definition type_accept (is_bytes : bool) (t : N) (o : obj) : list acc_err :=
   if mem t integer_conversion_types then (if int_like o then [] else [EInteger])
   else if mem t numeric_conversion_types then (if numeric o then [] else [ENumeric])
   else if (t =? ch_a) || (t =? ch_r) then []
@@ -133,18 +132,23 @@ Definition spec_accept (is_bytes : bool) (cs : cspec) (o : obj) : list acc_err :
   else if t =? ch_s then []
   else [EPct].
 
-(* one entry of get_serial_specifiers *)
-Inductive serial := SStar | SSpec (cs : cspec).
+Definition spec_accept (is_bytes : bool) (cs : cspec) (o : obj) : list acc_err :=
+  type_accept is_bytes (c_type cs) o.
+
+(* one entry of get_serial_specifiers.  StarConversionSpecifier carries no data;
+   the model remembers whether the '*' stood for the width or the precision
+   (the checks ignore it; CPython's integer range differs) *)
+Inductive serial := SStar (is_prec : bool) | SSpec (cs : cspec).
 
 Definition serial_accept (is_bytes : bool) (s : serial) (o : obj) : list acc_err :=
   match s with
-  | SStar => if int_like o then [] else [EStar]
+  | SStar _ => if int_like o then [] else [EStar]
   | SSpec cs => spec_accept is_bytes cs o
   end.
 
 Definition serial_of (cs : cspec) : list serial :=
-  (if is_star (c_width cs) then [SStar] else [])
-  ++ (if is_star (c_prec cs) then [SStar] else [])
+  (if is_star (c_width cs) then [SStar false] else [])
+  ++ (if is_star (c_prec cs) then [SStar true] else [])
   ++ (if c_type cs =? ch_pct then [] else [SSpec cs]).
 
 Definition serial_specifiers (specs : list cspec) : list serial := flat_map serial_of specs.
